@@ -22,6 +22,9 @@ def pairUp : List String → List (String × String)
 def decPRows (s : String) : List (String × Seq) :=
   if s == "_" || s == "" then [] else (pairUp (s.splitOn "/")).map fun p => (pctDec p.1, bytesOfString p.2)
 
+/-- a list of names on the wire: percent-encoded, `/`-separated, `_` when empty -/
+def decNames (s : String) : List String := if s == "_" || s == "" then [] else (s.splitOn "/").map pctDec
+
 def encPRows (rows : List (String × Seq)) : String :=
   if rows.isEmpty then "_" else "/".intercalate (rows.flatMap fun r => [pctEnc r.1, stringOfBytes r.2])
 
@@ -176,6 +179,7 @@ def decOp (s : String) : Option (Op × List String) :=
   | ["compress"] => some (.compress, [])
   | ["unalign"] => some (.unalign, [])
   | ["setalpha", a] => (parseInt? a).map fun v => (.setAlpha v, [])
+  | ["revcompseqs", r] => let names := decNames r; some (.revcompSeqs names, names)
   | ["rmgapsites", f, e] => do
     let (x, y) ← frac f
     pure (.rmGapSites x y (decBool e), [])
